@@ -104,6 +104,10 @@ def main(argv=None):
         if problems:
             print('INCONCLUSIVE property=%s %s' % (pid, problems))
             return 2
+        notrep = [r.get('not_replayable') for r in res if r.get('not_replayable')]
+        if notrep and not viol:
+            print('INCONCLUSIVE property=%s replay: %s' % (pid, notrep[0]))
+            return 2
         print('replay: %d violation(s) reproduced' % len(viol))
         return 1 if viol else 0
 
